@@ -73,6 +73,9 @@ func (r *ResponseRecorder) WriteHeader(status int) {
 // Write is a wrapper that records the size of the body
 // that gets written.
 func (r *ResponseRecorder) Write(buf []byte) (int, error) {
+	if !r.wroteHeader && r.status >= 100 && r.status <= 199 && r.status != http.StatusSwitchingProtocols {
+		r.status = http.StatusOK // only informational headers so far: this write sends the implicit 200
+	}
 	r.wroteHeader = true
 	n, err := r.ResponseWriterWrapper.Write(buf)
 	if err == nil {
@@ -172,6 +175,11 @@ func (rb *ResponseBuffer) Header() http.Header {
 // the header to the response.
 func (rb *ResponseBuffer) WriteHeader(status int) {
 	if rb.wroteHeader {
+		return
+	}
+	if status >= 100 && status <= 199 && status != http.StatusSwitchingProtocols {
+		// informational: the final header is still to come
+		rb.ResponseWriterWrapper.WriteHeader(status)
 		return
 	}
 	rb.wroteHeader = true
